@@ -39,6 +39,9 @@ pub struct RefInput<'a, G: Group> {
 pub enum RefVerdict<G> {
     /// the proof or statement is refused without evaluating the relation
     ShapeReject(String),
+    /// the reference finds no shape defect, but the verifier under observation stopped before it had
+    /// drawn all challenges, so the relation cannot be evaluated at "its" challenges
+    NoChallenges(usize),
     /// RHS - LHS of the final check
     Residual(G),
 }
@@ -121,11 +124,7 @@ pub fn paper_residual<G: Group>(inp: &RefInput<G>) -> RefVerdict<G> {
         }
     }
     if inp.challenges.len() != rounds + 3 {
-        return RefVerdict::ShapeReject(format!(
-            "verifier drew {} challenges where the protocol has {}",
-            inp.challenges.len(),
-            rounds + 3
-        ));
+        return RefVerdict::NoChallenges(inp.challenges.len());
     }
     if inp.gi.len() < mn || inp.hi.len() < mn {
         return RefVerdict::ShapeReject("not enough vector generators".into());
